@@ -11,7 +11,8 @@
 (***************************************************************************************************)
 EXTENDS Rat, TLC, FiniteSets, Json, Randomization
 CONSTANTS NProg, Grid, Initials, Totals, Factors, BoundPairs,
-          Sample          \* 0: every case of the grid; k > 0: k random proposals x k initial allocations x k bound vectors per fixed part (many programs)
+          Sample,         \* 0: every case of the grid; > 0: the proposals / initial allocations / bound vectors below (many programs), drawn by the
+          SampX, SampX0, SampB   \* harness with a seeded generator so that a run can be repeated (TLC's RandomSubset is not reproducible)
 VARIABLES fixed, case, obs
 vars == <<fixed, case, obs>>
 Progs == 1..NProg
@@ -46,9 +47,8 @@ Mk(f, x, x0, b) == [rel |-> f.rel, factor |-> f.factor,
                     bnd |-> IF f.years = 1 THEN <<b>> ELSE <<b, Rev(b)>>]
 Init == /\ fixed \in {[rel |-> r, factor |-> fa, tot |-> t, years |-> ys] : r \in BOOLEAN, fa \in Factors, t \in Totals, ys \in {1, 2}}
         /\ case = <<>> /\ obs = ""
-Sampled(S) == IF Sample = 0 THEN S ELSE RandomSubset(Sample, S)
 Pick == /\ case = <<>>
-        /\ \E x \in Sampled([Progs -> Grid]), x0 \in Sampled(Initials), b \in Sampled([Progs -> BoundPairs]) :
+        /\ \E x \in (IF Sample = 0 THEN [Progs -> Grid] ELSE SampX), x0 \in (IF Sample = 0 THEN Initials ELSE SampX0), b \in (IF Sample = 0 THEN [Progs -> BoundPairs] ELSE SampB) :
               LET c == Mk(fixed, x, x0, b) IN
               /\ case' = c
               /\ obs' = ToJson([case |-> c, n |-> NProg,
